@@ -1,6 +1,6 @@
 (* Extraction of the C16 model for the correspondence check.  ExtrOcamlBasic only: bool, option,
    list, prod, unit, sumbool map to OCaml's; nat, N, positive stay the extracted inductives. *)
 From Coq Require Import Extraction ExtrOcamlBasic.
-From PV Require Import Blocks.Model.
+From PV Require Import Blocks.Model Blocks.Apbt.
 Extraction Language OCaml.
-Extraction "blocks_model.ml" compute_order compute_predecessors build_ops wf_opsb anext_okb plainb merge_simpleb add_setup_except wf_excb.
+Extraction "blocks_model.ml" compute_order compute_predecessors build_ops wf_opsb anext_okb plainb merge_simpleb add_setup_except wf_excb add_pop_block_targets apbt_okb.
